@@ -50,7 +50,9 @@ def selection_case(draw):
     pop = draw(st.none() | st.none() | st.sampled_from([5000000, 10001, 9999999999]) | st.integers(10001, 9 * 10**9))
     # the aggregate is documented for both values of return_results (False is the default the shipped scripts use)
     rr = draw(st.booleans())
-    return dict(kind="stub", list=lst, fractions=fr, population=pop, return_results=rr)
+    # ... and with or without the csv files of the web interface being written (the writer itself is replaced by a recorder)
+    sv = draw(st.booleans())
+    return dict(kind="stub", list=lst, fractions=fr, population=pop, return_results=rr, save_all_results=sv)
 
 
 def expected_selection(lst, isos):
@@ -82,6 +84,9 @@ def run_stub(ctx, c):
         ran_with[country_data["iso3"]] = float(country_data["population"])
         return fr[country_data["iso3"]], "stub", ("result-of", country_data["iso3"])
     ScenarioRunnerNoTrade.run_optimizer_for_country = stub
+    orig_save = ScenarioRunnerNoTrade.save_all_results_to_csv
+    saved = []
+    ScenarioRunnerNoTrade.save_all_results_to_csv = lambda self, results, title: saved.extend(list(results.keys()))
     lst = list(c["list"])
     snap = list(lst)
     rr = bool(c.get("return_results", True))
@@ -94,9 +99,13 @@ def run_stub(ctx, c):
         with quiet():
             world, net_pop, net_fed, results = ScenarioRunnerNoTrade().run_model_no_trade(
                 title="c15", create_pptx_with_all_countries=False, show_country_figures=False, show_map_figures=False,
-                add_map_slide_to_pptx=False, scenario_option=opts, countries_list=lst, return_results=rr)
+                add_map_slide_to_pptx=False, scenario_option=opts, countries_list=lst, return_results=rr,
+                save_all_results=bool(c.get("save_all_results", False)))
     finally:
         ScenarioRunnerNoTrade.run_optimizer_for_country = orig
+        ScenarioRunnerNoTrade.save_all_results_to_csv = orig_save
+    if c.get("save_all_results"):
+        ctx.event("save_all_results")
     sel = expected_selection(c["list"], isos)
     ctx.event("return_results_%s" % rr)
     ctx.event("list_" + ("empty" if not c["list"] else "exclusion" if all("!" in x for x in c["list"]) else
